@@ -17,6 +17,9 @@ type InMemory struct {
 	namespaces []Cursor
 	attributes []Cursor
 	nodes      []Cursor
+	// inheritNs is true until the namespaces of the parent that this element
+	// does not declare itself have been copied into namespaces.
+	inheritNs bool
 }
 
 func initElement() InMemory {
@@ -52,6 +55,10 @@ func createInMemory(cursor *InMemory, parse parser.Parser, pos int) error {
 		n, isEnd, err := parse.Pull()
 
 		if errors.Is(err, io.EOF) {
+			for c := cursor; c.inheritNs; c = c.parent {
+				pos = inheritNamespaces(c, pos)
+			}
+
 			return nil
 		}
 
@@ -60,6 +67,7 @@ func createInMemory(cursor *InMemory, parse parser.Parser, pos int) error {
 		}
 
 		if isEnd {
+			pos = inheritNamespaces(cursor, pos)
 			cursor = cursor.parent
 			continue
 		}
@@ -68,14 +76,17 @@ func createInMemory(cursor *InMemory, parse parser.Parser, pos int) error {
 		case node.Namespace:
 			pos = addNamespace(v, cursor, pos)
 		case node.Attribute:
+			pos = inheritNamespaces(cursor, pos)
 			pos++
 			cursor.attributes = append(cursor.attributes, createNonElement(v, cursor, pos))
 		case node.Element:
+			pos = inheritNamespaces(cursor, pos)
 			pos++
-			next, nextPos := createElement(v, cursor, pos)
+			next := createElement(v, cursor, pos)
 			cursor.nodes = append(cursor.nodes, next)
-			cursor, pos = next, nextPos
+			cursor = next
 		default:
+			pos = inheritNamespaces(cursor, pos)
 			pos++
 			cursor.nodes = append(cursor.nodes, createNonElement(v, cursor, pos))
 		}
@@ -83,24 +94,47 @@ func createInMemory(cursor *InMemory, parse parser.Parser, pos int) error {
 }
 
 func addNamespace(ns node.Namespace, cursor *InMemory, pos int) int {
-	toReplace := -1
-
-	for pos, i := range cursor.namespaces {
-		nsTest := i.(*InMemory).node.(node.Namespace)
+	for i, c := range cursor.namespaces {
+		nsTest := c.(*InMemory).node.(node.Namespace)
 
 		if nsTest.Prefix() == ns.Prefix() {
-			toReplace = pos
-			break
+			cursor.namespaces[i] = createNonElement(ns, cursor, c.Pos())
+			return pos
 		}
 	}
 
-	if toReplace < 0 {
-		cursor.namespaces = append(cursor.namespaces, createNonElement(ns, cursor, pos))
-		return pos + 1
+	pos++
+	cursor.namespaces = append(cursor.namespaces, createNonElement(ns, cursor, pos))
+	return pos
+}
+
+// inheritNamespaces gives the element its own Cursor for every namespace of
+// its parent that it did not declare itself.  It runs once the element's own
+// declarations are complete, i.e. before its first attribute or child.
+func inheritNamespaces(cursor *InMemory, pos int) int {
+	if !cursor.inheritNs {
+		return pos
 	}
 
-	nsPos := cursor.namespaces[toReplace].(*InMemory).pos
-	cursor.namespaces[toReplace] = createNonElement(ns, cursor, nsPos)
+	cursor.inheritNs = false
+
+	for _, p := range cursor.parent.namespaces {
+		inherited := p.(*InMemory).node.(node.Namespace)
+		declared := false
+
+		for _, c := range cursor.namespaces {
+			if c.(*InMemory).node.(node.Namespace).Prefix() == inherited.Prefix() {
+				declared = true
+				break
+			}
+		}
+
+		if !declared {
+			pos++
+			cursor.namespaces = append(cursor.namespaces, createNonElement(inherited, cursor, pos))
+		}
+	}
+
 	return pos
 }
 
@@ -113,23 +147,14 @@ func createNonElement(node node.Node, parent *InMemory, pos int) *InMemory {
 	return &next
 }
 
-func createElement(node node.Node, parent *InMemory, pos int) (*InMemory, int) {
+func createElement(node node.Node, parent *InMemory, pos int) *InMemory {
 	next := initElement()
 	next.node = node
 	next.pos = pos
 	next.parent = parent
+	next.inheritNs = true
 
-	ns := make([]Cursor, len(parent.namespaces))
-	copy(ns, parent.namespaces)
-
-	next.namespaces = ns
-
-	for _, i := range next.namespaces {
-		pos++
-		i.(*InMemory).pos = pos
-	}
-
-	return &next, pos + len(next.namespaces)
+	return &next
 }
 
 func (c *InMemory) Pos() int {
